@@ -42,6 +42,11 @@ def contracts():
     cs.append(Equiv('core.Invoke.star', 'ref_stream.invoke_star_ref', args={'self': 'inst:core.Invoke', 'args': 'ref', 'kwargs': 'ref'}))
     cs.append(Equiv('streaming.Iter.all', 'ref_stream.iter_all_ref', args={'self': 'inst:streaming.Iter'}))
     cs.append(Equiv('streaming.Iter.first', 'ref_stream.iter_first_ref', args={'self': 'inst:streaming.Iter', 'key': 'ref', 'default': 'ref'}))
+    cs.append(Equiv('streaming.First.__init__', 'ref_stream.first_init_ref', args={'self': 'inst:streaming.First', 'key': 'ref', 'default': 'ref'},
+                    config=lambda cfg: cfg.pure_ctors.update({'core.Spec', 'core.Call'})))
+    cs.append(Equiv('streaming.First.glomit', 'ref_stream.first_glomit_ref', args={'self': 'inst:streaming.First', 'target': 'ref', 'scope': 'chainmap'}))
+    from contracts import X_ctor
+    cs += common.shared(X_ctor, ['streaming.Iter.__init__'])
     return cs
 
 
